@@ -1,6 +1,7 @@
 package props
 
 import (
+	sdk "github.com/cosmos/cosmos-sdk/types"
 	fundraising "github.com/tendermint/fundraising/x/fundraising/module"
 	"github.com/tendermint/fundraising/x/fundraising/types"
 
@@ -12,6 +13,7 @@ import (
 func init() {
 	register("H_C14_Settle", H_C14_Settle)
 	register("H_C14_SetHooks", H_C14_SetHooks)
+	register("H_C14_Process", H_C14_Process)
 	register("H_C14_TwoAuctions", H_C14_TwoAuctions)
 }
 
@@ -183,4 +185,64 @@ func H_C14_Settle() {
 		nd.Cover("settled-twice")
 	}
 	nd.Observe("transfers", int64(len(first.calls)))
+}
+
+// H_C14_Process: the same committed history on two processes, one of which has also executed a transaction
+// whose writes were thrown away (a gas simulation, or a transaction that failed after the handler ran):
+// whatever the keeper remembers in process memory must not leak into the committed result. The committed
+// bid, the bid counter, the transfers, the balances and the events of the two processes must coincide.
+func H_C14_Process() {
+	now := nd.Time("now")
+	price, amt := posDec("m.price"), posInt("m.amt")
+	var seqs [2]uint64
+	run := func(withDiscarded bool, slot int) c14Result {
+		e := env.New(now)
+		setParams(e, "p.")
+		st := buildAuction(e, "a.", aSpec{id: 0, batch: true, status: types.AuctionStatusStarted, nEnd: 1, nUsers: 1, allowAll: true, nBids: 1})
+		setAuctionSeq(e, 1)
+		nd.Assume(st.base.EndTimes[0].After(now))
+		bidder := user(1)
+		nd.Assume(price.GTE(st.batchA.MinBidPrice))
+		nd.Assume(amt.LTE(st.caps[1]))
+		e.SetBal(addr(bidder), denomFee, getParams(e).PlaceBidFee.AmountOf(denomFee))
+		nb := types.Bid{Price: price, Coin: sdk.NewCoin(denomSell, amt)}
+		e.SetBal(addr(bidder), denomPay, payAmtZ(nb).Int())
+		msg := types.NewMsgPlaceBid(0, bidder, types.BidTypeBatchMany, price, sdk.NewCoin(denomSell, amt))
+		if withDiscarded {
+			e.Branch()
+			_, _ = e.Msg.PlaceBid(e.Ctx, msg)
+			e.Discard()
+		}
+		e.ResetCalls()
+		m0 := e.EventMark()
+		_, err := e.Msg.PlaceBid(e.Ctx, msg)
+		seqs[slot], _ = e.K.BidSeq.Get(e.Ctx, 0)
+		return c14Result{e: e, err: err, calls: e.Calls(), st: st, m0: m0, m1: e.EventMark()}
+	}
+	first := run(false, 0)
+	second := run(true, 1)
+	nd.Assert("C14.process-same-result", (first.err == nil) == (second.err == nil))
+	nd.Assert("C14.process-same-bid-counter", seqs[0] == seqs[1])
+	b1, b2 := bidsOf(first.e, 0), bidsOf(second.e, 0)
+	nd.Assert("C14.process-same-bid-count", len(b1) == len(b2))
+	if len(b1) == len(b2) {
+		for i := range b1 {
+			nd.Assert("C14.process-same-bid-ids", b1[i].Id == b2[i].Id && b1[i].Bidder == b2[i].Bidder)
+			nd.Assert("C14.process-same-bid-terms", nd.And(b1[i].Price.Equal(b2[i].Price), b1[i].Coin.Amount.Equal(b2[i].Coin.Amount)))
+		}
+	}
+	nd.Assert("C14.process-same-ordered-events", env.SameEvents(first.e, first.m0, first.m1, second.e, second.m0, second.m1))
+	nd.Assert("C14.process-same-number-of-transfers", len(first.calls) == len(second.calls))
+	if len(first.calls) == len(second.calls) {
+		for i := range first.calls {
+			a, b := first.calls[i], second.calls[i]
+			nd.Assert("C14.process-same-ordered-transfers", a.Kind == b.Kind && a.From == b.From && a.To == b.To && a.Denom == b.Denom && nd.And(a.Amount.Equal(b.Amount)))
+		}
+	}
+	nd.Assert("C14.process-same-balances", nd.And(first.e.Bal(addr(user(1)), denomPay).Equal(second.e.Bal(addr(user(1)), denomPay)),
+		first.e.Bal(addr(user(1)), denomFee).Equal(second.e.Bal(addr(user(1)), denomFee))))
+	if first.err == nil {
+		nd.Cover("bid-placed-on-both-processes")
+	}
+	nd.Observe("bidSeq", int64(seqs[0]))
 }
